@@ -177,12 +177,17 @@ struct RegSut {
     /// after the prelude, this many further counters are registered and then all unregistered again (a registry that
     /// has been large); the reference registry is unaffected by a completed wave
     wave: usize,
+    /// every history is its own state (no merging by the state dump): hidden state a dump does not show cannot prune
+    unmerged: bool,
 }
 
 impl Sut for RegSut {
     type Op = Op;
     fn depth_in_key(&self) -> bool {
-        false
+        self.unmerged
+    }
+    fn merge_states(&self) -> bool {
+        !self.unmerged
     }
     fn ops(&self, _hist: &[Op]) -> Vec<Op> {
         let mut v = vec![];
@@ -414,7 +419,7 @@ fn main() {
             std::process::exit(vsched::replay_cli("C06", p, &doc, reg_driver_from_spec));
         }
         let ops: Vec<Op> = replay_value_ops(&doc).iter().map(|s| parse_op(s, &pool)).collect();
-        let sut = RegSut { n: pool.len(), pool, prelude: vec![], movable: vec![], wave: 0 };
+        let sut = RegSut { n: pool.len(), pool, prelude: vec![], movable: vec![], wave: 0, unmerged: false };
         let r1 = sut.replay(&ops);
         let r2 = sut.replay(&ops);
         match (&r1, &r2) {
@@ -445,7 +450,7 @@ fn main() {
     );
     rep.bounds = json!({"collectors": n, "depth_safety_net": depth});
     let cpool = pool.clone();
-    let out = explore(RegSut { pool, n, prelude: vec![], movable: vec![], wave: 0 }, depth, if thorough { 1500 } else { 120 }, "registry", &mut rep);
+    let out = explore(RegSut { pool, n, prelude: vec![], movable: vec![], wave: 0, unmerged: false }, depth, if thorough { 1500 } else { 120 }, "registry", &mut rep);
     if !out.fixpoint {
         rep.exhaustive = false;
         if rep.cap_hit.is_none() {
@@ -465,14 +470,23 @@ fn main() {
         big.push(("overlap", vec![d("x_extra", "hx"), d(max_name, "hb")]));
         big.push(("fresh", vec![d("fresh", "hf")]));
         let movable = vec![imin, imax, imed, 24, 25];
-        let out2 = explore(RegSut { n: big.len(), pool: big.clone(), prelude: (0..24).collect(), movable: movable.clone(), wave: 0 }, 14, if thorough { 600 } else { 100 }, "registry-with-24-collectors", &mut rep);
+        let out2 = explore(RegSut { n: big.len(), pool: big.clone(), prelude: (0..24).collect(), movable: movable.clone(), wave: 0, unmerged: false }, 14, if thorough { 600 } else { 100 }, "registry-with-24-collectors", &mut rep);
         if !out2.fixpoint {
             rep.exhaustive = false;
+        }
+        // every history (none merged) of up to 7 (thorough 8) calls over three (thorough four) plain counters: the merged
+        // searches above trust the registry dump to show the whole state; this one does not
+        {
+            let k = if thorough { 4 } else { 3 };
+            let small: Vec<(&'static str, Vec<D>)> = big[..k].to_vec();
+            let t0 = std::time::Instant::now();
+            let _ = explore(RegSut { n: k, pool: small, prelude: vec![], movable: vec![], wave: 0, unmerged: true }, if thorough { 8 } else { 7 }, 1500, "registry-unmerged-histories", &mut rep);
+            eprintln!("registry-unmerged-histories: {:.1}s", t0.elapsed().as_secs_f64());
         }
         // the same 24 collectors after a wave of 9000 (thorough: 40000) further registrations that were all undone again
         let wave = if thorough { 40000 } else { 9000 };
         let t0 = std::time::Instant::now();
-        let out3 = explore(RegSut { n: big.len(), pool: big, prelude: (0..24).collect(), movable: vec![movable[1], movable[3], movable[4]], wave }, 10, 600, "registry-after-a-wave", &mut rep);
+        let out3 = explore(RegSut { n: big.len(), pool: big, prelude: (0..24).collect(), movable: vec![movable[1], movable[3], movable[4]], wave, unmerged: false }, 10, 600, "registry-after-a-wave", &mut rep);
         eprintln!("registry-after-a-wave({}): {:.1}s", wave, t0.elapsed().as_secs_f64());
         if !out3.fixpoint {
             rep.exhaustive = false;
